@@ -76,6 +76,12 @@ def main():
         if sh("git status --porcelain", cwd=REPO)[1].strip():
             print("/repo is not clean; refusing")
             return 2
+        man0 = json.loads((VERIF / "MANIFEST.json").read_text())
+        env0 = dict(os.environ, TLVERIF_NO_EVIDENCE="1")
+        dirty = [c["property_id"] for c in man0["checks"] if sh(c["quick_cmd"], cwd=VERIF, env=env0)[0] != 0]
+        if dirty:
+            print(f"checks {dirty} are not silent on the unchanged tree; fix that first")
+            return 2
         code, out = sh(f"git apply {pf}", cwd=REPO)
         if code:
             print("cannot apply to /repo: " + out)
